@@ -25,6 +25,7 @@ func c12ExtraItems() []Item {
 		{Name: "custom+preprocess", MaxDevs: -1, Run: c12ExtraScenario},
 		{Name: "schemas-over-named-types", MaxDevs: -1, Run: c12NamedTypesScenario},
 		{Name: "field-less-struct-schemas", MaxDevs: -1, Run: c12FieldlessScenario},
+		{Name: "preprocess-type-mismatch", MaxDevs: -1, Run: c12PreprocessMismatchScenario},
 	}
 }
 
@@ -497,6 +498,87 @@ func c12FieldlessScenario(x *mc.X) *mc.Outcome {
 				}
 			}
 		}
+	}
+	return out
+}
+
+// "A Preprocess ... type mismatch becomes an issue and skips the wrapped schema": the function is declared for
+// one input type F; a value of ANY other Go type — also another numeric type that happens to hold a convertible
+// number — is a mismatch: one coerce issue at the node, the function is not called, the wrapped schema does not run.
+func c12PreprocessMismatchScenario(x *mc.X) *mc.Outcome {
+	zh.Reset()
+	zh.Install(x, zh.PoolLIFO, zh.OrderSorted)
+	fk := x.Choose(4, "function input type") // int, uint, float64, string
+	place := x.Choose(3, "placement")        // 0 struct field, 1 slice element, 2 behind pointer (field)
+	called, innerRan := 0, 0
+	inner := func() z.ZogSchema {
+		return z.Int().TestFunc(func(v any, c z.Ctx) bool { innerRan++; return true })
+	}
+	var pre z.ZogSchema
+	var inputs []any
+	var exact any
+	switch fk {
+	case 0:
+		pre = z.Preprocess(func(v int, c z.Ctx) (int, error) { called++; return v, nil }, inner())
+		inputs, exact = []any{float64(7), int64(7), int32(7), uint(7), uint64(1 << 63), "7", 7.5}, 7
+	case 1:
+		pre = z.Preprocess(func(v uint, c z.Ctx) (int, error) { called++; return int(v), nil }, inner())
+		inputs, exact = []any{7, -1, int64(-1), float64(7), "7"}, uint(7)
+	case 2:
+		pre = z.Preprocess(func(v float64, c z.Ctx) (int, error) { called++; return int(v), nil }, inner())
+		inputs, exact = []any{7, float32(7), int64(7), "7"}, float64(7)
+	default:
+		pre = z.Preprocess(func(v string, c z.Ctx) (int, error) { called++; return len(v), nil }, inner())
+		inputs, exact = []any{7, []byte("7"), zooNamedStr("7")}, "seven"
+	}
+	ii := x.Choose(len(inputs)+1, "input")
+	var in any = exact
+	if ii < len(inputs) {
+		in = inputs[ii]
+	}
+	var m z.ZogIssueMap
+	key := "v"
+	pmsg := func() (msg string) {
+		defer func() {
+			if r := recover(); r != nil {
+				msg = firstLine(fmt.Sprint(r))
+			}
+		}()
+		switch place {
+		case 0:
+			var d struct{ V int }
+			m = z.Struct(z.Schema{"v": pre}).Parse(map[string]any{"v": in}, &d)
+		case 1:
+			var d []int
+			m = z.Slice(pre).Parse([]any{in}, &d)
+			key = "[0]"
+		default:
+			var d struct{ V *int }
+			m = z.Struct(z.Schema{"v": z.Ptr(pre)}).Parse(map[string]any{"v": in}, &d)
+		}
+		return ""
+	}()
+	zh.Reset()
+	var got []string
+	for _, k := range sortedKeys(m) {
+		if k != "$first" {
+			for _, is := range m[k] {
+				got = append(got, k+"|"+is.Code)
+			}
+		}
+	}
+	mismatch := ii < len(inputs)
+	var want []string
+	wantCalled, wantInner := 1, 1
+	if mismatch {
+		want, wantCalled, wantInner = []string{key + "|coerce"}, 0, 0
+	}
+	fks := []string{"int", "uint", "float64", "string"}
+	out := &mc.Outcome{Traces: 1, Nontrivial: true, Sig: fmt.Sprintf("premismatch|%d|%T|%d", fk, in, place)}
+	out.Sample = map[string]any{"function_input_type": fks[fk], "input": fmt.Sprintf("%T(%v)", in, in), "placement": place, "issues": got}
+	if pmsg != "" || !eqStrings(got, want) || called != wantCalled || innerRan != wantInner {
+		x.Note("Preprocess(func(%s) ..., Int) given %T(%v); placement %d (0 field, 1 element, 2 behind pointer)", fks[fk], in, in, place)
+		out.Viol = append(out.Viol, &mc.Violation{Key: "C12:preprocess-type-mismatch:" + fks[fk], What: "an input that is not of the Preprocess function's input type must become one coerce issue, without calling the function or running the wrapped schema (an input of that type: function and schema run)", Expected: fmt.Sprintf("%v function calls=%d wrapped schema ran=%d", want, wantCalled, wantInner), Observed: fmt.Sprintf("panic=%q %v function calls=%d wrapped schema ran=%d", pmsg, got, called, innerRan)})
 	}
 	return out
 }
